@@ -650,7 +650,7 @@ func renderOp(o Op) string {
 		return fmt.Sprintf("%s(job%d)", s, o.A)
 	case opPurge, opCloseQueue, opQueuePending:
 		return fmt.Sprintf("%s(q%d)", s, o.Q)
-	case opBatchWait, opBatchRead, opBatchPending:
+	case opBatchWait, opBatchRead, opBatchPending, opBatchDrain:
 		return fmt.Sprintf("%s(batch%d)", s, o.A)
 	case opTune, opAdvance, opBind:
 		return fmt.Sprintf("%s(%d)", s, o.A)
